@@ -151,9 +151,9 @@ Print Assumptions C01_proxy_protocol_header_is_true_source.
 
 (* ---- close propagation ---- *)
 
-(* reflective: at every site that joins a TCP-class tunnel, for every flag combination, every wrapper's
-   close function (the limiter's included) closes the value it wraps, and libio.Join is called exactly
-   once with the stack top on one side *)
+(* reflective: at ALL TEN sites that build a wrapper stack (client udp/sudp included), for every flag
+   combination, every wrapper's close function (the limiter's included) closes the value it wraps; at the
+   four sites that join a TCP-class tunnel libio.Join is called exactly once with the stack top on one side *)
 Theorem C01_close_shapes_ok : closes_ok stack_sites = true.
 Proof. vm_compute. reflexivity. Qed.
 Print Assumptions C01_close_shapes_ok.
@@ -186,6 +186,42 @@ Theorem C01_self_closing_limiter_refuted :
   j_baseB st = 0 /\ j_y st = JCopy /\ y_enabled st = false.
 Proof. vm_compute. repeat split. Qed.
 Print Assumptions C01_self_closing_limiter_refuted.
+
+(* ---- close propagation end to end: the clause "in every case the peer's connection is closed within
+   bounded time" ---- *)
+
+(* REFUTED for transport.protocol = kcp with tcpMux = false (finding F-C01b, KNOWN_FINDINGS key
+   tunnel-close:kcp-without-tcpmux; replayed by the tunnel driver on every run): a raw kcp session has no
+   close signalling, so for EVERY schedule in which the backend does not close by itself frpc's Join never
+   leaves its initial state - the backend connection stays open whatever the user and frps do ... *)
+Theorem C01_close_kcp_without_tcpmux_refuted :
+  link_signals true false = false /\
+  (forall Ws Wc sched, forallb not_backend_close sched = true ->
+     e_cli (e2e_run (link_signals true false) Ws Wc sched (e2e_init Ws Wc)) = j_init Wc) /\
+  (forall Ws Wc sched, forallb not_user_close sched = true ->
+     e_srv (e2e_run (link_signals true false) Ws Wc sched (e2e_init Ws Wc)) = j_init Ws) /\
+  (* witness: the user closes, frps closes the user connection and its end of the work connection,
+     and the backend connection has still received no Close() *)
+  (let st := e2e_run (link_signals true false) [CtInner] [CtInner] (EUserClose :: e2e_drain) (e2e_init [CtInner] [CtInner]) in
+   j_all_done (e_srv st) = true /\ j_baseB (e_srv st) = 1 /\ j_baseA (e_cli st) = 0 /\ j_all_done (e_cli st) = false).
+Proof.
+  exact (conj eq_refl (conj e2e_close_nosignal_refuted_cli (conj e2e_close_nosignal_refuted_srv
+           (conj eq_refl (conj eq_refl (conj eq_refl eq_refl)))))).
+Qed.
+Print Assumptions C01_close_kcp_without_tcpmux_refuted.
+
+(* ... and it holds for every other combination (PARTIAL: excludes exactly protocol = kcp /\ tcpMux = false):
+   from any reachable state of the two Joins in which a direction has ended on either side, a bounded number
+   of steps ends both Joins with the user connection, both ends of the work connection and the backend
+   connection closed.  The transports' close signalling itself (TCP FIN, yamux FIN, quic stream close,
+   websocket close) is assumed, not verified; the tunnel driver observes it. *)
+Theorem C01_close_end_to_end_partial : forall proto_is_kcp tcp_mux, negb (proto_is_kcp && negb tcp_mux) = true ->
+  forall Ws Wc, all_inner Ws = true -> all_inner Wc = true ->
+  forall sched, let st := e2e_run (link_signals proto_is_kcp tcp_mux) Ws Wc sched (e2e_init Ws Wc) in
+  j_triggered (e_srv st) = true \/ j_triggered (e_cli st) = true ->
+  e2e_closed (e2e_run (link_signals proto_is_kcp tcp_mux) Ws Wc e2e_drain st).
+Proof. exact (fun k m H => eq_ind_r (fun b => forall Ws Wc, all_inner Ws = true -> all_inner Wc = true -> forall sched, let st := e2e_run b Ws Wc sched (e2e_init Ws Wc) in j_triggered (e_srv st) = true \/ j_triggered (e_cli st) = true -> e2e_closed (e2e_run b Ws Wc e2e_drain st)) e2e_close_partial H). Qed.
+Print Assumptions C01_close_end_to_end_partial.
 
 (* ---- non-vacuity ---- *)
 Example C01_example_codecs : (forall k, codec_lawful (toy_cipher k)) /\ codec_lawful toy_comp.
